@@ -3,6 +3,7 @@
 Decided clauses (each a necessary condition of "the output represents input * 2^offset up to one unit of the last limb"):
 NRM-1 the final normalisation step is the last link of a carry chain
 NRM-2 right shifts: the chain has size(operand) + steps steps for every operand size, result size and shift (piecewise-linear identity over loop trip counts)
+NRM-3 same-radix normalisation with a signed bit offset: the chain has max(size(operand) - limb_offset, 0) steps for every operand size, result size and offset
 WR-6  the carry buffer is written before a middle / final step reads it on every feasible path
 WR-1/WR-2 on the C08 files: every limb of the selected result column is produced, other columns are never addressed
 BK-6  the AVX normalisation step kernels apply the digit / carry helpers per lsh branch as often as the reference kernels
@@ -12,7 +13,7 @@ DC-1  digit / carry pairing in the scalar step kernels (i64 and i128, reference,
 Not decided: the digit / carry arithmetic itself (balanced digits, rounding), cross-radix accumulation, integer encoding / decoding.
 """
 from . import facts
-from .c11 import wr1, wr2, wr6, nrm1, nrm2
+from .c11 import wr1, wr2, wr6, nrm1, nrm2, nrm3
 
 C08_FILES = ("reference/vec_znx/normalize.rs", "reference/vec_znx/shift.rs", "reference/fft64/vec_znx_big.rs", "reference/ntt120/vec_znx_big.rs", "ntt120/vec_znx_big_avx.rs")
 
@@ -111,6 +112,7 @@ def run(res, tier):
                        "Digit arithmetic, rounding, cross-radix accumulation and integer encoding are not decided.")
     res.rule("NRM-1", "the final normalisation step is the last link of a carry chain - no middle or final step receives the same carry afterwards on a feasible path")
     res.rule("NRM-2", "right shifts: the number of carry-chain steps equals size(operand) + steps for every operand size, result size and shift")
+    res.rule("NRM-3", "same-radix normalisation with a signed offset (small and i128 accumulators, plain and fused): chain steps == max(size(operand) - limb_offset, 0)")
     res.rule("WR-6", "carry buffers are written (first step or zero) before a middle / final step reads them on every feasible path")
     res.rule("WR-1", "overwrite-type shape functions of the C08 files cover every limb of the result column")
     res.rule("WR-2", "every accessor on operand X of the C08 files uses column X_col")
@@ -126,6 +128,8 @@ def run(res, tier):
         res.floor("NRM-1", "shape functions with a final normalisation step", n1, 6)
         n2 = nrm2(p, res)
         res.floor("NRM-2", "right-shift shape functions", n2, 3)
+        n3 = nrm3(p, res)
+        res.floor("NRM-3", "same-radix offset normalisations", n3, 3)
         n6 = wr6(p, res)
         res.floor("WR-6", "shape functions with a carry chain", n6, 6)
         n_ow, cov = wr1(p, res, restrict=in_c08)
